@@ -6,7 +6,7 @@ w=/tmp/mut_repo_$$
 rm -rf $w && cp -r /repo $w && rm -rf $w/.git
 echo "== demo on clean copy"; PYTHONPATH=$w/Python timeout 300 /venv/bin/python $d/demo.py >/dev/null 2>&1; echo "   exit=$?"
 ( cd $w && patch -p1 -s < $d/patch.diff ) || { echo "patch failed"; rm -rf $w; exit 2; }
-echo "== demo on changed copy"; PYTHONPATH=$w/Python timeout 300 /venv/bin/python $d/demo.py 2>&1 | tail -3; echo "   exit=$?"
+echo "== demo on changed copy"; PYTHONPATH=$w/Python timeout 300 /venv/bin/python $d/demo.py > /tmp/seedtest_demo_$$.out 2>&1; rc=$?; tail -3 /tmp/seedtest_demo_$$.out; rm -f /tmp/seedtest_demo_$$.out; echo "   exit=$rc"
 for p in "$@"; do
   echo "== check $p on changed copy"
   VERIF_REPO=$w /verif/check $p 2>&1 | grep -v conda | grep "VIOLATION\|^  \|quick:\|Error" | cut -c1-400 | head -8
